@@ -2,15 +2,15 @@ SPECIFICATION Spec
 CONSTANTS
     IdOrder <- MCIds4
     ValOrder <- MCVals
-    Payloads = {1, 2}
+    Payloads = {1}
     SegOrder <- MCSegs
     GlobTable <- MCGlob
-    Grid <- MCGrid
-    TxGrid <- MCTxGridTiny
+    Grid <- MCGridSmall
+    TxGrid <- MCTxGrid
     JoinCollapse = FALSE
     NoLimitRaw = FALSE
     Faults = TRUE
-    MaxTxOps = 1
+    MaxTxOps = 2
 INVARIANTS
     TypeOK
     GetIsLast
